@@ -118,8 +118,11 @@ impl Writer {
 
 impl Write for Writer {
     fn write(&mut self, buf: &[u8]) -> std::io::Result<usize> {
-        self.builder.input(buf);
-        write_mapped(&mut self.mmap, &mut self.mmap_pos, &mut self.tmpfile, buf)
+        let written = write_mapped(&mut self.mmap, &mut self.mmap_pos, &mut self.tmpfile, buf)?;
+        // Only hash what the file accepted: the caller retries the rest
+        // (short write) or all of it (EINTR).
+        self.builder.input(&buf[..written]);
+        Ok(written)
     }
 
     fn flush(&mut self) -> std::io::Result<()> {
@@ -312,13 +315,18 @@ impl AsyncWrite for AsyncWriter {
 
                         // Start the operation asynchronously.
                         *state = State::Busy(crate::async_lib::spawn_blocking(|| {
-                            inner.builder.input(&inner.buf);
                             let res = write_mapped(
                                 &mut inner.mmap,
                                 &mut inner.mmap_pos,
                                 &mut inner.tmpfile,
                                 &inner.buf,
                             );
+                            // Only hash what the file accepted: the caller
+                            // retries the rest (short write) or all of it
+                            // (EINTR).
+                            if let Ok(written) = res {
+                                inner.builder.input(&inner.buf[..written]);
+                            }
                             inner.last_op = Some(Operation::Write(res));
                             State::Idle(Some(inner))
                         }));
